@@ -119,14 +119,34 @@ func ResultSchema(m Method) *arrow.Schema {
 }
 
 // resultBatch builds the expected 1-row result batch by hand.
-func resultBatch(m Method, a Args) arrow.RecordBatch {
+func resultBatch(m Method, a Args, zero bool) arrow.RecordBatch {
 	schema := ResultSchema(m)
 	if m.Void {
 		return array.NewRecordBatch(schema, nil, 0)
 	}
 	b := array.NewBuilder(gen.Mem, m.ResultDT)
 	defer b.Release()
-	switch v := UnaryValue(m.Name, a).(type) {
+	val := UnaryValue(m.Name, a)
+	if zero {
+		// the Go zero value: a nil slice is an empty value, a nil pointer is null
+		switch val.(type) {
+		case string:
+			val = ""
+		case int64:
+			val = int64(0)
+		case float64:
+			val = float64(0)
+		case bool:
+			val = false
+		case []byte:
+			val = []byte(nil)
+		case []int64:
+			val = []int64(nil)
+		case *string:
+			val = (*string)(nil)
+		}
+	}
+	switch v := val.(type) {
 	case string:
 		b.(*array.StringBuilder).Append(v)
 	case int64:
@@ -186,7 +206,7 @@ func modelUnary(m Method, s Script, c Call) Pred {
 		p.Fails = true
 		p.Output.Batches = append(p.Output.Batches, PBatch{Kind: wire.KindError, Why: string(s.UAct)})
 	default:
-		p.Output.Batches = append(p.Output.Batches, PBatch{Kind: wire.KindData, Canon: canonOf(resultBatch(m, c.Args))})
+		p.Output.Batches = append(p.Output.Batches, PBatch{Kind: wire.KindData, Canon: canonOf(resultBatch(m, c.Args, s.UZero))})
 	}
 	return p
 }
